@@ -86,6 +86,8 @@ class Renderer:
             opts.append('br')
         if s == '' and not in_array:
             opts += ['db', 'eb']
+        if s == '' and in_array:
+            opts += ['db']
         o = self.L.choice(opts)
         if o != 'b':
             self.used.add({'q': 'quoted', 'br': 'brace_wrapped', 'db': 'double_brace_empty', 'eb': 'brace_empty'}[o])
@@ -341,7 +343,7 @@ class C02(Check):
         pairs = []
         seen = set()
         for _ in range(rng.randint(0, 4)):
-            k = M.ident(rng, 1, 8)
+            k = M.pair_key(rng, 1, 8)
             if k.upper() in names or k.lower() in seen:
                 continue
             seen.add(k.lower())
